@@ -168,6 +168,13 @@ def run(case, ctx):
         return out
     unmatched = [x for x in distinct
                  if not any(re.fullmatch(c, x) for c in crs)]
+    if eff['opts'].get('strip') and form_used != 'pdextract':
+        # with strip=True the expressions allow for the white space that was
+        # stripped: the examples AS GIVEN are matched as well
+        raw = sorted(set(x for x in eff['examples'] if x is not None and not (
+            eff['opts'].get('remove_empties') and x.strip() == '')))
+        unmatched += [x for x in raw if x not in distinct
+                      and not any(re.fullmatch(c, x) for c in crs)]
     if any(re.match(c, x) and not re.fullmatch(c, x)
            for x in distinct for c in crs):
         out.label('match-but-not-fullmatch-by-some-expression')
